@@ -170,12 +170,30 @@ def run_enum_stage(stage, tier, shard, nshards, ctx, journal):
             ctx.report(v.bucket, v.msg, case)
 
 
-def run_fuzz_stage(stage, tier, shard, nshards, seed, ctx, out_path, scratch_dir):
+def run_fuzz_stage(stage, tier, shard, nshards, seed, ctx, out_path, scratch_dir, journal=None):
     """Coverage-guided campaign (atheris/libFuzzer) with the semantic oracle inside the target.
     stage: target(data: bytes, ctx) raising Violation; runs{tier}; seeds: list of bytes; instrument: list of package names."""
     import atheris
     runs = max(1, stage["runs"][tier] // nshards)
-    target = stage["target"]
+    target = stage.get("target")
+    last = {"case": None}
+    if target is None:
+        # structured fuzzing: libFuzzer mutates the byte stream that drives the Hypothesis strategy of the stage
+        from hypothesis import given, settings, HealthCheck
+        run = stage["run"]
+
+        def body(case):
+            last["case"] = case
+            if journal is not None:
+                journal.write(stage["name"], case)
+            ctx.begin(case)            # one evaluation = one program actually executed (not one libFuzzer input)
+            run(case, ctx)
+        hyp = settings(deadline=None, database=None, suppress_health_check=list(HealthCheck))(given(stage["strategy"](tier))(body))
+        fz = hyp.hypothesis.fuzz_one_input
+
+        def target(data, ctx_):
+            last["case"] = None
+            fz(bytes(data))
     corpus = os.path.join(scratch_dir, "corpus-%s-%d" % (stage["name"], shard))
     os.makedirs(corpus, exist_ok=True)
     seeds = stage.get("seeds", []) if shard % 2 == 0 else []      # odd shards start from an empty corpus
@@ -194,8 +212,15 @@ def run_fuzz_stage(stage, tier, shard, nshards, seed, ctx, out_path, scratch_dir
             json.dump(out, f, default=repr)
         os.replace(tmp, out_path)
 
+    execs = {"n": 0}
+    structured = stage.get("target") is None
+
     def one(data):
-        ctx.evaluations += 1
+        execs["n"] += 1
+        if structured:
+            ctx.classes["libfuzzer-inputs"] += 1
+        else:
+            ctx.evaluations += 1
         ctx.case = None
         try:
             target(data, ctx)
@@ -203,7 +228,7 @@ def run_fuzz_stage(stage, tier, shard, nshards, seed, ctx, out_path, scratch_dir
             if v.bucket in ctx.active_known:
                 ctx.known_hits[v.bucket] += 1
             else:
-                ctx.report(v.bucket, v.msg, {"bytes_hex": bytes(data).hex()})
+                ctx.report(v.bucket, v.msg, last["case"] if last["case"] is not None else {"bytes_hex": bytes(data).hex()})
                 flush()
                 os._exit(0)
         except Exception as e:
@@ -212,10 +237,12 @@ def run_fuzz_stage(stage, tier, shard, nshards, seed, ctx, out_path, scratch_dir
                 with open(out_path, "w") as f:
                     json.dump({"harness_error": "fuzz target: " + short_tb(e)}, f)
                 os._exit(2)
-            ctx.report(v.bucket, v.msg, {"bytes_hex": bytes(data).hex()})
+            ctx.report(v.bucket, v.msg, last["case"] if last["case"] is not None else {"bytes_hex": bytes(data).hex()})
             flush()
             os._exit(0)
-        if ctx.evaluations % 2000 == 0 or ctx.evaluations >= total:
+        if journal is not None and last["case"] is not None:
+            pass
+        if execs["n"] % 2000 == 0 or execs["n"] >= total:
             flush()
 
     argv = [sys.argv[0], corpus, "-runs=%d" % runs, "-seed=%d" % (seed * 1000 + shard + 1), "-max_len=%d" % stage.get("max_len", 64),
@@ -297,7 +324,7 @@ def main():
                 elif stage["kind"] == "enum":
                     run_enum_stage(stage, a.tier, a.shard, a.nshards, ctx, journal)
                 elif stage["kind"] == "fuzz":
-                    run_fuzz_stage(stage, a.tier, a.shard, a.nshards, a.seed, ctx, a.out, os.path.dirname(a.out))
+                    run_fuzz_stage(stage, a.tier, a.shard, a.nshards, a.seed, ctx, a.out, os.path.dirname(a.out), journal)
                 else:
                     raise HarnessError("unknown stage kind %r" % stage["kind"])
             except StopStage:
